@@ -40,7 +40,7 @@ def inputs(tier="quick"):
         out.append(("c01C", c01.build({"fam": "C", "tabs": list(tabs), "schema": True, "layout": "multi"})[0]))
     # C02 single constraint items (no two-word actions, no position-0)
     for it in c02.items():
-        if not c02.two_word(it):
+        if not c02.two_word(it) and not (it[0] == "ck" and it[1] in c02.CK_BEYOND):
             out.append(("c02", c02.build({"items": [it], "pos": "end"})))
     # C04: every kind on the full table set
     base = "\n".join(c04.TABLES[x][2] for x in c04.TKEYS) + "\n"
